@@ -131,6 +131,10 @@ MUTANTS = [
      "        protobuf_file.write(self._to_protobuf().SerializeToString())",
      "        try:\n            protobuf_file.write(self._to_protobuf().SerializeToString())\n        except OSError:\n            pass",
      ["C01"]),
+    ("save_path_api_swallows_oserror", "ir.py",
+     "        with open(file_name, \"wb\") as f:\n            self.save_protobuf_file(f)",
+     "        try:\n            with open(file_name, \"wb\") as f:\n                self.save_protobuf_file(f)\n        except OSError:\n            pass",
+     ["C01"]),
     ("PRESERVING_message_built_before_header_is_written", "ir.py",
      "        protobuf_file.write(GTIRB_MAGIC_CHARS)\n",
      "        body = self._to_protobuf().SerializeToString()\n        protobuf_file.write(GTIRB_MAGIC_CHARS)\n",
